@@ -782,8 +782,8 @@ PURE = ("len", "tolist", "write", "item", "str", "get", "iter")
 
 def pair_programs(mini):
     """both operands of a concatenation carry state: [X on t, swap, Y on the other table, concatenate] for X, Y in
-    the state-changing ops of the mini alphabet (cache a field, materialise, index, replace, set)"""
-    state = [o for o in mini if o[0] in ("get", "tolist", "idx", "replace", "set")]
+    the state-changing ops of the mini alphabet (cache a field, index, replace, set)"""
+    state = [o for o in mini if o[0] in ("get", "idx", "replace", "set")]
     for x in state:
         for y in state:
             for c in ("tu", "ut"):
@@ -900,7 +900,8 @@ def plan(tier):
             tasks += [(0, fmt, cs[0], "core"), (1, fmt, cs[0], "core")]
             samples += [(fmt, "whole", 8, 4), (fmt, cs[0], 8, 4)]
             tasks.append((2, fmt, "whole", "core" if fmt == "bed" else "mini"))
-            tasks.append((4, fmt, "whole", "pair"))
+            if fmt in ("bed", "bdg", "csv", "wig", "gfa", "fastq", "vcf0", "sam", "bam"):   # one per buffer family
+                tasks.append((4, fmt, "whole", "pair"))
             if fmt in MAIN:
                 tasks.append((2, fmt, cs[0], "mini"))
         else:
